@@ -146,6 +146,7 @@ func storeCats(addr ssa.Value, vt types.Type) []string {
 // call) or by calling back into module closures (propagated here).
 func newMemInfo(w *World) *memInfo {
 	m := &memInfo{w: w, catID: map[string]int{}, writes: map[*ssa.Function][]uint64{}}
+	fieldAddrTaken = computeFieldAddrTaken(w)
 	m.star = m.id("*")
 	callers := map[*ssa.Function][]*ssa.Function{}
 	var work []*ssa.Function
@@ -248,6 +249,7 @@ type memVal struct {
 	addr  ssa.Value       // an address expression of the location (for reporting, globals)
 	sites []*ssa.BasicBlock // blocks of the last-write places that define an untracked value
 	siteIns []ssa.Instruction // the writing instructions among them (joins have none)
+	base    ssa.Value         // the object whose field this is, when asked for through a query
 	refs  []ssa.Instruction
 	pos   token.Pos
 }
@@ -279,7 +281,14 @@ func killMatches(e memEntry, w string, local bool) bool {
 	}
 	switch {
 	case strings.HasPrefix(w, "C:"):
-		// a store through an arbitrary pointer may hit a field, an element or a cell of that type
+		// a store through an arbitrary pointer may hit an element or a cell of that type,
+		// and a field only if the address of that field is taken somewhere in the program
+		if strings.HasPrefix(e.cat, "F:") {
+			name := e.cat[:strings.IndexByte(e.cat, '|')]
+			if fieldAddrTaken != nil && !fieldAddrTaken[name] {
+				return false
+			}
+		}
 		return !(local && e.private)
 	case strings.HasPrefix(e.cat, "C:"):
 		// a field or element store may hit what a pointer parameter / global pointer refers to
@@ -320,6 +329,61 @@ func privateCell(v ssa.Value) bool {
 // Phase 2 propagates location contents like constant propagation; a
 // location that is not tracked holds "its contents since the last write",
 // a value named by (location, last-write places).
+// fieldAddrTaken: fields ("F:<struct>.<field>") whose address escapes a
+// direct load/store somewhere in the analysed program (&x.f handed on).
+var fieldAddrTaken map[string]bool
+
+func computeFieldAddrTaken(w *World) map[string]bool {
+	res := map[string]bool{}
+	for fn := range w.CG.Nodes {
+		if fn == nil {
+			continue
+		}
+		for _, b := range fn.Blocks {
+			for _, in := range b.Instrs {
+				fa, ok := in.(*ssa.FieldAddr)
+				if !ok {
+					continue
+				}
+				taken := false
+				for _, ref := range *fa.Referrers() {
+					switch x := ref.(type) {
+					case *ssa.UnOp:
+					case *ssa.Store:
+						if x.Val == ssa.Value(fa) {
+							taken = true
+						}
+					case *ssa.FieldAddr, *ssa.IndexAddr, *ssa.DebugRef:
+						// nested selection: the inner address is judged on its own;
+						// slicing an array field (x.arr[:]) does hand out the memory
+					case *ssa.Slice:
+						taken = true
+					default:
+						taken = true
+					}
+				}
+				if taken {
+					pt := fa.X.Type().Underlying().(*types.Pointer).Elem()
+					st := pt.Underlying().(*types.Struct)
+					res["F:"+typeKey(pt)+"."+st.Field(fa.Field).Name()] = true
+				}
+			}
+		}
+	}
+	return res
+}
+
+// trackedStructs: struct types whose fields are tracked from function entry.
+var trackedStructs = map[string]bool{
+	"seehuhn.de/go/sfnt/parser.Parser": true,
+}
+
+// blockEntry is a pseudo instruction: "on entry to block b" (for memQuery).
+type blockEntry struct {
+	ssa.Instruction
+	b *ssa.BasicBlock
+}
+
 // memQuery answers "what does field f of *base hold just before instruction ins?"
 type memQuery func(ins ssa.Instruction, base ssa.Value, field string) ssa.Value
 
@@ -511,12 +575,13 @@ func canonLoads(fn *ssa.Function, m *memInfo) (map[*ssa.UnOp]ssa.Value, map[*ssa
 	keyCat := map[string]string{}
 	keyTyp := map[string]types.Type{}
 	keyAddr := map[string]ssa.Value{}
+	keyBase := map[string]ssa.Value{}
 	sinceVal := func(key, version string) *memVal {
 		id := key + "#" + version
 		if v, ok := sinceVals[id]; ok {
 			return v
 		}
-		v := &memVal{fn: fn, key: id, cat: keyCat[key], typ: keyTyp[key], addr: keyAddr[key]}
+		v := &memVal{fn: fn, key: id, cat: keyCat[key], typ: keyTyp[key], addr: keyAddr[key], base: keyBase[key]}
 		if version != "entry" {
 			for _, sid := range strings.Split(version, "+") {
 				if sb := siteBlock[sid]; sb != nil {
@@ -588,7 +653,29 @@ func canonLoads(fn *ssa.Function, m *memInfo) (map[*ssa.UnOp]ssa.Value, map[*ssa
 	in := make([]map[string]memEntry, nb)
 	out := make([]map[string]memEntry, nb)
 	in[0] = map[string]memEntry{}
+	trackedKeys := map[string]bool{}
+	// objects with a declared invariant: their fields are tracked from the
+	// function entry on, so that joins and loops get explicit merge values
+	for _, par := range fn.Params {
+		pt, ok := par.Type().Underlying().(*types.Pointer)
+		if !ok || !trackedStructs[typeKey(pt.Elem())] {
+			continue
+		}
+		stt, ok := pt.Elem().Underlying().(*types.Struct)
+		if !ok {
+			continue
+		}
+		for i := 0; i < stt.NumFields(); i++ {
+			name := "F:" + typeKey(pt.Elem()) + "." + stt.Field(i).Name()
+			key := name + "@" + valID(par)
+			cat := name + "|" + typeKey(stt.Field(i).Type())
+			keyCat[key], keyTyp[key], keyBase[key] = cat, stt.Field(i).Type(), par
+			in[0][key] = memEntry{cat, sinceVal(key, "entry"), false}
+			trackedKeys[key] = true
+		}
+	}
 	var record func(ins ssa.Instruction, st map[string]memEntry, killed map[string]string)
+	var recordEntry func(b *ssa.BasicBlock, st map[string]memEntry, killed map[string]string)
 	transfer := func(b *ssa.BasicBlock, st0 map[string]memEntry) map[string]memEntry {
 		st := make(map[string]memEntry, len(st0))
 		for k, v := range st0 {
@@ -598,7 +685,10 @@ func canonLoads(fn *ssa.Function, m *memInfo) (map[*ssa.UnOp]ssa.Value, map[*ssa
 		for c, v := range killIn[b.Index] {
 			killed[c] = v
 		}
-		for _, ins := range b.Instrs {
+		for ii, ins := range b.Instrs {
+			if ii == 0 && record != nil {
+				recordEntry(b, st, killed)
+			}
 			if x, ok := ins.(*ssa.UnOp); ok && x.Op == token.MUL {
 				k, cat, ok := addrKey(x.X)
 				if !ok {
@@ -608,6 +698,9 @@ func canonLoads(fn *ssa.Function, m *memInfo) (map[*ssa.UnOp]ssa.Value, map[*ssa
 				keyCat[k], keyTyp[k] = cat, x.Type()
 				if keyAddr[k] == nil {
 					keyAddr[k] = x.X
+				}
+				if fa, isFA := x.X.(*ssa.FieldAddr); isFA && keyBase[k] == nil {
+					keyBase[k] = resolve(fa.X)
 				}
 				if e, ok := st[k]; ok {
 					canon[x] = e.val
@@ -637,7 +730,7 @@ func canonLoads(fn *ssa.Function, m *memInfo) (map[*ssa.UnOp]ssa.Value, map[*ssa
 			}
 			if record != nil {
 				switch ins.(type) {
-				case ssa.CallInstruction, *ssa.Store:
+				case ssa.CallInstruction, *ssa.Store, *ssa.Return:
 					record(ins, st, killed)
 				}
 			}
@@ -694,6 +787,9 @@ func canonLoads(fn *ssa.Function, m *memInfo) (map[*ssa.UnOp]ssa.Value, map[*ssa
 		}
 		if nvis == 0 {
 			return nil, false
+		}
+		for k := range trackedKeys {
+			keys[k] = true
 		}
 		st := map[string]memEntry{}
 		var keyList []string
@@ -803,6 +899,17 @@ func canonLoads(fn *ssa.Function, m *memInfo) (map[*ssa.UnOp]ssa.Value, map[*ssa
 		}
 		snaps[ins] = s2
 	}
+	blockSnaps := map[*ssa.BasicBlock]snapT{}
+	recordEntry = func(b *ssa.BasicBlock, st map[string]memEntry, killed map[string]string) {
+		s2 := snapT{st: make(map[string]memEntry, len(st)), killed: make(map[string]string, len(killed))}
+		for k, v := range st {
+			s2.st[k] = v
+		}
+		for k, v := range killed {
+			s2.killed[k] = v
+		}
+		blockSnaps[b] = s2
+	}
 	for _, b := range order {
 		if in[b.Index] != nil || b.Index == 0 {
 			transfer(b, in[b.Index])
@@ -814,8 +921,36 @@ func canonLoads(fn *ssa.Function, m *memInfo) (map[*ssa.UnOp]ssa.Value, map[*ssa
 		if ins == nil {
 			sn, ok = snapT{}, true // function entry
 		}
+		if be, isBE := ins.(*blockEntry); isBE {
+			sn, ok = blockSnaps[be.b]
+		}
 		if !ok {
 			return nil
+		}
+		if strings.HasSuffix(field, "#after") {
+			// the state right after the instruction: apply its writes
+			field = strings.TrimSuffix(field, "#after")
+			s2 := snapT{st: map[string]memEntry{}, killed: map[string]string{}}
+			for k, v := range sn.st {
+				s2.st[k] = v
+			}
+			for k, v := range sn.killed {
+				s2.killed[k] = v
+			}
+			for _, w := range insWrites[ins] {
+				for k, e := range s2.st {
+					if w.fresh != "" && !strings.Contains(k, w.fresh) {
+						continue
+					}
+					if killMatches(e, w.cat, w.local) {
+						delete(s2.st, k)
+					}
+				}
+				if w.fresh == "" {
+					s2.killed[w.cat] = "i" + instrID(ins)
+				}
+			}
+			sn = s2
 		}
 		if field == "#maplen" {
 			if _, isMap := base.Type().Underlying().(*types.Map); !isMap {
@@ -851,6 +986,9 @@ func canonLoads(fn *ssa.Function, m *memInfo) (map[*ssa.UnOp]ssa.Value, map[*ssa
 			}
 			if _, known := keyCat[key]; !known {
 				keyCat[key], keyTyp[key] = cat, stt.Field(i).Type()
+			}
+			if keyBase[key] == nil {
+				keyBase[key] = resolve(base)
 			}
 			return sinceVal(key, versionOf(sn.killed, cat))
 		}
